@@ -164,7 +164,7 @@ func (g *gen) group(base, gi int) {
 		"limit-ok", "limit-string", "limit-negative", "labels-ok", "labels-scalar", "labels-badname", "labels-__name__", "labels-intvalue",
 		"labels-dupkey", "partial_response_strategy", "interval-dup", "limit-float", "labels-null", "labels-list", "interval-null", "interval-empty",
 		"labels-boolvalue", "labels-nullvalue", "labels-spacename", "limit-null", "query_offset-int", "interval-zero",
-		"limit-dup-zero-first", "interval-dup-zero-first", "query_offset-dup-zero-first", "limit-dup", "labels-dup-empty-first")
+		"limit-dup-zero-first", "interval-dup-zero-first", "query_offset-dup-zero-first", "limit-dup", "labels-dup-empty-first", "labels-ok-after-rules")
 	switch extra {
 	case 1:
 		item("foo: 1")
@@ -283,6 +283,11 @@ func (g *gen) group(base, gi int) {
 	}
 	if rules == 8 {
 		g.w.line(base+2, "-")
+	}
+	if extra == 34 {
+		// group-level labels written after the rules they apply to
+		item("labels:")
+		g.w.line(base+4, "team: a")
 	}
 	if rules == 5 {
 		g.w.line(base+2, "rules:")
@@ -475,7 +480,7 @@ func (g *gen) rule(base, gi, ri int) {
 	lb := g.choose(site+"labels", "absent", "valid", "scalar", "list", "badname", "__name__", "intvalue", "dup-key", "bad-template", "nullvalue", "empty-map",
 		"boolvalue", "good-template", "null", "dup-labels-key", "spacename", "digitname", "listvalue", "mapvalue", "floatvalue", "emptyvalue", "emptyname", "template-undefined-func", "intkey", "flow-map",
 		// the keys the group-level labels of the generator use (team), overriding them at rule level
-		"override-group-key", "override-group-key-bad-template", "override-group-key-undefined-func", "override-group-key-good-template")
+		"override-group-key", "override-group-key-bad-template", "override-group-key-undefined-func", "override-group-key-good-template", "override-group-key-value-template")
 	mapItem := func(key string, lines ...string) {
 		item(key + ":")
 		for _, l := range lines {
@@ -540,6 +545,8 @@ func (g *gen) rule(base, gi, ri int) {
 		mapItem("labels", `team: "{{ nosuchfunc 1 }}"`)
 	case 28:
 		mapItem("labels", `team: "{{ $labels.job }}"`)
+	case 29:
+		mapItem("labels", `team: "{{ $value }}"`)
 	}
 	an := g.choose(site+"annotations", "absent", "valid", "scalar", "badname", "intvalue", "dup-key", "bad-template", "list", "nullvalue", "null", "empty-map",
 		"good-template", "dup-annotations-key", "spacename", "boolvalue", "template-undefined-func", "template-undefined-var", "mapvalue", "emptyname", "__name__")
